@@ -19,6 +19,7 @@ import (
 	"google.golang.org/grpc/codes"
 	"google.golang.org/grpc/status"
 
+	"github.com/oxia-db/oxia/common/constant"
 	"github.com/oxia-db/oxia/oxia"
 	commonbatch "github.com/oxia-db/oxia/oxia/batch"
 	"github.com/oxia-db/oxia/proto"
@@ -78,23 +79,30 @@ func (e bevent) String() string {
 	return string(e.typ)
 }
 
+// behaviour is the script for one request: attempts that deliver the first pre[a] answers (as stream chunks) and then
+// fail with a retriable status, followed by the final attempt.
 type behaviour struct {
-	typ  byte // o e s l y(retriable error once, then ok)
+	pre  []int
+	typ  byte // final attempt: o e s l
 	kind byte // P D R G for s/l
 	d    int
 	code int
 }
 
 func (b behaviour) String() string {
+	var parts []string
+	for _, k := range b.pre {
+		parts = append(parts, fmt.Sprintf("p%d", k))
+	}
 	switch b.typ {
 	case 'e':
-		return fmt.Sprintf("e%d", b.code)
+		parts = append(parts, fmt.Sprintf("e%d", b.code))
 	case 's', 'l':
-		return fmt.Sprintf("%c%c%d", b.typ, b.kind, b.d)
-	case 'y':
-		return "y"
+		parts = append(parts, fmt.Sprintf("%c%c%d", b.typ, b.kind, b.d))
+	default:
+		parts = append(parts, "ok")
 	}
-	return "ok"
+	return strings.Join(parts, "+")
 }
 
 func parseCfg(s string) bcfg {
@@ -113,19 +121,27 @@ func splitList(s string) []string {
 
 func parseScript(s string) []behaviour {
 	var res []behaviour
-	for _, t := range splitList(s) {
-		switch {
-		case t == "ok":
-			res = append(res, behaviour{typ: 'o'})
-		case t == "y":
-			res = append(res, behaviour{typ: 'y'})
-		case t[0] == 'e':
-			c, _ := strconv.Atoi(t[1:])
-			res = append(res, behaviour{typ: 'e', code: c})
-		default:
-			d, _ := strconv.Atoi(t[2:])
-			res = append(res, behaviour{typ: t[0], kind: t[1], d: d})
+	for _, entry := range splitList(s) {
+		if entry == "y" {
+			entry = "p0+ok"
 		}
+		var b behaviour
+		for _, t := range strings.Split(entry, "+") {
+			switch {
+			case t == "ok":
+				b.typ = 'o'
+			case t[0] == 'p':
+				k, _ := strconv.Atoi(t[1:])
+				b.pre = append(b.pre, k)
+			case t[0] == 'e':
+				b.typ = 'e'
+				b.code, _ = strconv.Atoi(t[1:])
+			default:
+				b.typ, b.kind = t[0], t[1]
+				b.d, _ = strconv.Atoi(t[2:])
+			}
+		}
+		res = append(res, b)
 	}
 	return res
 }
@@ -178,7 +194,7 @@ type brun struct {
 	cur      []string    // observations of the event being processed
 	payloads map[any]int // response object -> payload (responses are matched by pointer identity)
 	nexec    int
-	retried  map[int]bool
+	attempt  int        // attempts already made at request number nexec
 	open     *wrapBatch // batch that has calls and has been neither completed nor failed
 
 	phase     atomic.Int32
@@ -251,23 +267,32 @@ func idsOf[T any](l []T, key func(T) string) string {
 	return strings.Join(s, ".")
 }
 
-// next returns the request number and behaviour for an executor invocation; retry=true means
-// "answer with a retriable error and do not count this attempt".
-func (h *brun) next() (n int, bh behaviour, retry bool) {
+// next returns the request number, the attempt number and the behaviour for an executor invocation;
+// partial >= 0: this attempt delivers the first `partial` answers and then fails with a retriable status.
+func (h *brun) next() (n int, a int, bh behaviour, partial int) {
 	h.mu.Lock()
 	defer h.mu.Unlock()
-	n = h.nexec
+	n, a = h.nexec, h.attempt
 	bh = behaviour{typ: 'o'}
 	if n < len(h.script) {
 		bh = h.script[n]
 	}
-	if bh.typ == 'y' && !h.retried[n] {
-		h.retried[n] = true
-		return n, bh, true
+	if a < len(bh.pre) {
+		h.attempt++
+		return n, a, bh, bh.pre[a]
 	}
 	h.nexec++
-	return n, bh, false
+	h.attempt = 0
+	return n, a, bh, -1
 }
+
+// retriableErr cycles through the statuses the batches retry on.
+func retriableErr(i int) error {
+	c := []codes.Code{codes.Unavailable, constant.CodeInvalidStatus, constant.CodeAlreadyClosed, constant.CodeNodeIsNotLeader}[i%4]
+	return status.Error(c, "scripted retriable error")
+}
+
+func payloadOf(n, a, id int) int { return n*1000000 + a*100000 + id }
 
 func tweakLen(bh behaviour, kind byte, n int) int {
 	if bh.kind != kind {
@@ -286,14 +311,16 @@ func tweakLen(bh behaviour, kind byte, n int) int {
 }
 
 func (h *brun) execWrite(_ context.Context, req *proto.WriteRequest) (*proto.WriteResponse, error) {
-	n, bh, retry := h.next()
-	if retry {
-		return nil, status.Error(codes.Unavailable, "scripted retriable error")
+	n, a, bh, partial := h.next()
+	if a == 0 {
+		h.logObs(fmt.Sprintf("S%d:P%s:D%s:R%s:G-", n,
+			idsOf(req.Puts, func(p *proto.PutRequest) string { return p.Key }),
+			idsOf(req.Deletes, func(p *proto.DeleteRequest) string { return p.Key }),
+			idsOf(req.DeleteRanges, func(p *proto.DeleteRangeRequest) string { return p.StartInclusive })))
 	}
-	h.logObs(fmt.Sprintf("S%d:P%s:D%s:R%s:G-", n,
-		idsOf(req.Puts, func(p *proto.PutRequest) string { return p.Key }),
-		idsOf(req.Deletes, func(p *proto.DeleteRequest) string { return p.Key }),
-		idsOf(req.DeleteRanges, func(p *proto.DeleteRangeRequest) string { return p.StartInclusive })))
+	if partial >= 0 {
+		return nil, retriableErr(n + a)
+	}
 	if bh.typ == 'e' {
 		return nil, &codeErr{bh.code}
 	}
@@ -302,7 +329,7 @@ func (h *brun) execWrite(_ context.Context, req *proto.WriteRequest) (*proto.Wri
 		r := &proto.PutResponse{Status: proto.Status_OK, Version: &proto.Version{}}
 		p := 0
 		if i < len(req.Puts) {
-			p = n*1000000 + idOf(req.Puts[i].Key)
+			p = payloadOf(n, a, idOf(req.Puts[i].Key))
 		}
 		h.reg(r, p)
 		resp.Puts = append(resp.Puts, r)
@@ -311,7 +338,7 @@ func (h *brun) execWrite(_ context.Context, req *proto.WriteRequest) (*proto.Wri
 		r := &proto.DeleteResponse{Status: proto.Status_OK}
 		p := 0
 		if i < len(req.Deletes) {
-			p = n*1000000 + idOf(req.Deletes[i].Key)
+			p = payloadOf(n, a, idOf(req.Deletes[i].Key))
 		}
 		h.reg(r, p)
 		resp.Deletes = append(resp.Deletes, r)
@@ -320,7 +347,7 @@ func (h *brun) execWrite(_ context.Context, req *proto.WriteRequest) (*proto.Wri
 		r := &proto.DeleteRangeResponse{Status: proto.Status_OK}
 		p := 0
 		if i < len(req.DeleteRanges) {
-			p = n*1000000 + idOf(req.DeleteRanges[i].StartInclusive)
+			p = payloadOf(n, a, idOf(req.DeleteRanges[i].StartInclusive))
 		}
 		h.reg(r, p)
 		resp.DeleteRanges = append(resp.DeleteRanges, r)
@@ -345,27 +372,37 @@ func (s *fakeReadStream) Recv() (*proto.ReadResponse, error) {
 }
 
 func (h *brun) execRead(_ context.Context, req *proto.ReadRequest) (proto.OxiaClient_ReadClient, error) {
-	n, bh, retry := h.next()
-	if retry {
-		return nil, status.Error(codes.Unavailable, "scripted retriable error")
+	n, a, bh, partial := h.next()
+	if a == 0 {
+		h.logObs(fmt.Sprintf("S%d:P-:D-:R-:G%s", n, idsOf(req.Gets, func(p *proto.GetRequest) string { return p.Key })))
 	}
-	h.logObs(fmt.Sprintf("S%d:P-:D-:R-:G%s", n, idsOf(req.Gets, func(p *proto.GetRequest) string { return p.Key })))
-	if bh.typ == 'e' && bh.code%2 == 0 {
+	if partial == 0 && (n+a)%2 == 0 {
+		// nothing delivered: the stream cannot even be opened
+		return nil, retriableErr(n + a)
+	}
+	if partial < 0 && bh.typ == 'e' && bh.code%2 == 0 {
 		return nil, &codeErr{bh.code}
 	}
+	count := tweakLen(bh, 'G', len(req.Gets))
+	if partial >= 0 {
+		count = partial
+		if count > len(req.Gets) {
+			count = len(req.Gets)
+		}
+	}
 	var all []*proto.GetResponse
-	for i := 0; i < tweakLen(bh, 'G', len(req.Gets)); i++ {
+	for i := 0; i < count; i++ {
 		r := &proto.GetResponse{Status: proto.Status_OK, Version: &proto.Version{}}
 		p := 0
 		if i < len(req.Gets) {
-			p = n*1000000 + idOf(req.Gets[i].Key)
+			p = payloadOf(n, a, idOf(req.Gets[i].Key))
 		}
 		h.reg(r, p)
 		all = append(all, r)
 	}
 	// deliver in chunks of varying size (the batch concatenates them)
 	st := &fakeReadStream{err: io.EOF}
-	step := 1 + n%3
+	step := 1 + (n+a)%3
 	for len(all) > 0 {
 		k := step
 		if k > len(all) {
@@ -375,7 +412,10 @@ func (h *brun) execRead(_ context.Context, req *proto.ReadRequest) (proto.OxiaCl
 		all = all[k:]
 		step = step%3 + 1
 	}
-	if bh.typ == 'e' { // odd code: the stream fails after the first chunk
+	switch {
+	case partial >= 0:
+		st.err = retriableErr(n + a) // after the chunks the stream fails with a retriable status
+	case bh.typ == 'e': // odd code: the stream fails for good after the first chunk
 		if len(st.chunks) > 1 {
 			st.chunks = st.chunks[:1]
 		}
@@ -557,7 +597,7 @@ func drain[T any](c chan T) {
 
 // runBatchOnce drives one case once. timingOK=false: the linger timer fired at a moment the case has no Tick.
 func runBatchOnce(cfg bcfg, script []behaviour, events []bevent, tickLinger time.Duration) (result string, timingOK bool) {
-	h := &brun{cfg: cfg, script: script, payloads: map[any]int{}, retried: map[int]bool{},
+	h := &brun{cfg: cfg, script: script, payloads: map[any]int{},
 		sizeC: make(chan int, 64), compC: make(chan struct{}, 64), failC: make(chan struct{}, 64)}
 	hasTick := false
 	for _, e := range events {
@@ -732,8 +772,14 @@ func checkBatchSpec(o *hxOut, cfg bcfg, script []behaviour, events []bevent, res
 		switch {
 		case r == "shut":
 		case strings.HasPrefix(r, "ok"):
+			// payload = request number, attempt number, call id: it must be this call's answer of the LAST attempt
+			// at the request the call travelled in
 			p, err := strconv.Atoi(r[2:])
-			if err != nil || p%1000000 != id || !sent[p/1000000][id] {
+			lastAttempt := 0
+			if err == nil && p/1000000 < len(script) {
+				lastAttempt = len(script[p/1000000].pre)
+			}
+			if err != nil || p%100000 != id || (p/100000)%10 != lastAttempt || !sent[p/1000000][id] {
 				o.Violation("batch:result-of-another-call", fmt.Sprintf("%s => %s (call %d got %s)", line, result, id, r))
 				return
 			}
